@@ -6,7 +6,7 @@ import RosuModel.Model.ConvOsuWire
 # `PIPE maniac` wire: osu! → mania convert end to end, IEEE instance
 
 `PIPE maniac <key mod|-> <hp> <cs> <od> <ar> <conversion_difficulty> <clock_rate> <take|-> <holdoff>
-<invert> <gradual indices|-> <timing points|-> <objects>` — floats as hex bit patterns (`hp`…`ar` f32).
+<invert> <random seed|-> <gradual indices|-> <timing points|-> <objects>` — floats as hex bit patterns (`hp`…`ar` f32).
 Timing points `,`-separated `time:beat_len`.  Objects `;`-separated: `c,x,sample,ct,start` |
 `s,x,sample,ct,span,start,end,seg,<nodes :-separated|->` | `e,sample,hold,short,start,end,is_hold`.
 Response: `<keys> <seed> <stars> <max_combo> <n_objects> <n_hold_notes> <is_convert>` then per gradual
@@ -40,14 +40,14 @@ def parseTiming (s : String) : List (Float × Float) :=
     | [a, b] => some (f64 a, f64 b)
     | _ => none
 
-def handlePIPEMC (keys hp cs od ar cd clock take ho inv gidx timing objs : String) : String :=
+def handlePIPEMC (keys hp cs od ar cd clock take ho inv rnd gidx timing objs : String) : String :=
   let parsed := if objs = "-" then [] else (objs.splitOn ";").map parseObj
   if parsed.any Option.isNone then "bad-object"
   else
     let os := parsed.filterMap id
     let st : Settings Float Float32 :=
       ⟨if keys = "-" then none else some (nat keys), f32 hp, f32 cs, f32 od, f32 ar, f64 cd, f64 clock,
-        ho = "1", inv = "1", parseTiming timing⟩
+        ho = "1", inv = "1", parseTiming timing, if rnd = "-" then none else some (int rnd)⟩
     let PA := Rosu.ManiaPattern.floatArith
     let A := secArith 400.0
     let k := keysOf ieeePrep ieeeX st.keyMod st.cs st.od os
